@@ -78,4 +78,15 @@ theorem C07_pipeline (c : Centre) (x : List Rat) (pad : Nat) (b : List Bool) (am
     (0 ≤ thr → thr ≤ 1 → (o.fracs = [] ∨ 0 ≤ bkMinN.getD (thMinN.getD 3)) → o.labels = ampSpec o.fracs thr (bkMinN.getD (thMinN.getD 3))) :=
   pipelineAmp_spec c x pad b amp bd bkMinN thMinN dur detMask thr o hlen h
 
+/-- THE FILTER AS THIS DETECTOR USES IT: the labels `detect_bursts_amp` returns are a fixed point of the minimum-run filter (it keeps what the filter returns). -/
+theorem C07_filter_fixed_point (fracs : List (Option Rat)) (thr minN : Rat) (labels : List Bool) (h0 : 0 ≤ thr) (h1 : thr ≤ 1)
+    (hk : fracs = [] ∨ 0 ≤ minN) (h : detectAmp fracs thr minN = .ok labels) : minRun labels minN = labels := by
+  rw [detectAmp_eq_spec fracs thr minN h0 h1 hk] at h
+  injection h with h
+  subst h
+  unfold ampSpec
+  rw [← minRun_eq_spec, minRun_idem]
+
+example : detectAmp [some 1, some 1, some (1/2), some 1, some 1, some 1] 1 3 = .ok [false, false, false, true, true, true] := by decide +kernel
+
 end Bycycle
